@@ -5,7 +5,7 @@ import json, subprocess, os
 ENV = "GOFLAGS=-mod=mod GOPROXY=off GOSUMDB=off GOTOOLCHAIN=local"
 TB = ("Trusted base: go/types+go/ssa (x/tools v0.29.0) front end, the govc VC generator in /verif (guarded by the "
       "must-fail selftest corpus), z3 4.8.12 / z3 5.1.0 / cvc5 1.0.3 (an obligation counts only if one says unsat and none says sat). "
-      "Assumed: A2 strings as byte sequences, A3/A4 value semantics of slices/maps (no aliasing between inputs), A5 globals written only in init, "
+      "Assumed: A2 strings as byte sequences, A3/A4 value semantics of slices/maps (no aliasing between inputs; guarded on every run by the structural obligation slices-received-by-value-are-not-written, which every property carries), A5 globals written only in init (structural obligation), "
       "assumed contracts of external libraries listed per run in the evidence file. ")
 
 HALF = 'Build-time half only: what the templates emit from the compiled Output and what the runtime library does with it are outside the technique (no verifier for text/template; the runtime is an external module). '
@@ -72,7 +72,7 @@ CLAIMS = {
    text=("Proof over the step algebra, for all step lists and all step behaviours: Runner.Run runs the steps in order up to and including the first failing one and returns exactly that step's error, nil iff all ran and returned nil; "
          "StepAmalgamated runs every sub-step once and accepts iff all accept; StepVerboseSwitchable runs its parent exactly once when active (returning its verdict unchanged, Indent/EndIndent balanced) and not at all when inactive; "
          "StepCodeGenerator calls Build exactly once, calls os.WriteFile at most once, only after a successful Build, with filepath.Clean(-o) and exactly Build's string, and succeeds iff the write succeeded; "
-         "the END line of a failing step reports exactly len(grouperror.Collection(err)) errors; findFiles returns cleaned paths in lexical order; the RunE closure of NewBuildCmd hands its flags to the composition root unchanged, gives it io.Discard as writer under --quiet, returns the failing step's error unchanged (nil iff every step succeeded), prints nothing itself on success and on failure prints its error list only to that same writer with exactly one numbered line per collected error; buildRunner hands each payload field to the DI container under its own parameter name; Builder.Build returns the formatter's result for head+body and reports a failing template or formatter; CodeFormatter.Format yields no text on a syntax error. Structural obligation: that os.WriteFile call is the only file-mutating call in the repository, so on any failure before it the -o path is untouched."),
+         "the END line of a failing step reports exactly len(grouperror.Collection(err)) errors; findFiles returns cleaned paths in lexical order; the RunE closure of NewBuildCmd hands its flags to the composition root unchanged, gives it io.Discard as writer under --quiet, returns the failing step's error unchanged (nil iff every step succeeded), prints nothing itself on success and on failure prints its error list only to that same writer with exactly one numbered line per collected error; buildRunner hands each payload field to the DI container under its own parameter name; Builder.Build returns the formatter's result for head+body and reports a failing template or formatter; CodeFormatter.Format yields no text on a syntax error; StepReadConfig.Run fails when there is no pattern, when a pattern is malformed, when any matched file cannot be read or parsed (even next to files that are fine) and when no file could be processed. Structural obligation: that os.WriteFile call is the only file-mutating call in the repository, so on any failure before it the -o path is untouched."),
    note=("Not covered (evaluated/assumed, not proved): what the generated container (internal/gontainer) wires from the parameters buildRunner sets (which steps in which order, that the generator is last: evaluated by the composition test for all four flag combinations), the numbering text of the error list (fatih/color calls are assumed effects recorded with their writer), os.WriteFile's own atomicity (A13). main is proved to exit non-zero exactly when the command returns an error. "
          "Each function's contract speaks about its own direct effectful calls; the end-to-end statement is the composition of these contracts given the wiring. " + TB),
    design="DESIGN.md section 4 C10"),
